@@ -130,4 +130,19 @@ TEXT = {
         note="Trusted: the reference formulas (DESIGN Appendix A.2).",
         technique="runtime monitoring: differential direct calls against exact reference formulas (exhaustive finite sub-spaces + boundary sweeps)",
     ),
+    "C01": dict(
+        level="Held on every case observed: (a) all shipped EEST state fixtures for Frontier..Prague (about 4 500 cases with a full post-state) replayed through the real Evm with an own loader and compared account by account, slot by slot; (b) the reference EVM (validated on the same fixtures in the same run) versus the real Evm on generated transactions: verdict, outcome class, gas used, refund, output, logs, created address, complete post-state.",
+        note="Trusted: the fixtures (outputs of the real specification); the reference EVM refevm.rs (written from the EIPs/EELS structure: whole-state snapshots, sets, BigUint ALU) which must reproduce the fixtures or the run is inconclusive; revm-precompile inside the reference (C23 judges precompiles); alloy's k256 recovery for fixture authorizations. Cases in which the reference would push a balance above 2^256-1 are outside the specification's domain and skipped (counted).",
+        technique="runtime monitoring: differential execution against specification-produced fixtures and a fixture-validated reference EVM",
+    ),
+    "C02": dict(
+        level="Held on every case observed: verdict equality with a one-function-per-rule reference validator on boundary-valued transactions over all mainnet specs, and no-effect control runs (history with vs without the rejected transactions) over CacheDB and State on one Evm.",
+        note="Trusted: refevm::validate (Appendix A.3) and the own intrinsic/floor formulas.",
+        technique="runtime monitoring: differential verdicts on boundary-value inputs plus control-run comparison of histories",
+    ),
+    "C34": dict(
+        level="Held on every case observed: exact gas equality with the reference EVM (accessed sets with snapshot/restore and never-restored transaction-level sets) on directed warm/cold scenarios per Berlin+ spec and on access-heavy generated programs.",
+        note="Trusted: the reference EVM as validated by C01. Directed scenarios enumerate every constant address in revm's sources, because the property's list of pre-warmed addresses is closed.",
+        technique="runtime monitoring: differential gas comparison against a fixture-validated reference on directed and generated workloads",
+    ),
 }
